@@ -1,3 +1,4 @@
 SPECIFICATION Spec
 INVARIANT Gen
 CHECK_DEADLOCK FALSE
+CONSTANT KeyMergesWsIntoHttp = FALSE
